@@ -55,7 +55,7 @@ func parseRouteParam(s string) (*RouteParam, error) {
 		return nil, errors.New("route-param syntax error")
 	}
 	s = s[1:]
-	for _, t := range strings.Split(s, ";") {
+	for _, t := range splitUnquoted(s, ';') {
 		param, err := ParseGenericParam(t)
 		if err != nil {
 			return nil, err
